@@ -27,6 +27,35 @@ theorem C04_findAllIndicesLoop (find : Nat → Option α) (sp : α → Nat × Na
     findAllA false find sp (nextOf w) len (limOf n) = stdFindAll find sp w len n :=
   loopA_eq_std find sp w len ok wk n hn
 
+/-- "none for n == 0": `allMatches` with limit 0 delivers nothing. -/
+theorem C04_std_limit_zero (find : Nat → Option α) (sp : α → Nat × Nat) (w : Nat → Nat) (len : Nat) :
+    stdFindAll find sp w len 0 = [] := by
+  unfold stdFindAll
+  have h : 2 * (len + 2) = (2 * len + 3) + 1 := by omega
+  simp only [h, stdAll]
+  simp
+
+/-- The public entry points (`FindAll`, `FindAllIndex`, `AppendAllIndex`, …): `if n == 0 { return nil }` in front of
+    the loop (regex.go), so that the loop's `n <= 0 = all` encoding is never reached with 0. -/
+def findAllTop (anch : Bool) (find : Nat → Option α) (sp : α → Nat × Nat) (next : Nat → Nat) (len : Nat) (n : Int) : List α :=
+  if n = 0 then [] else findAllA anch find sp next len (limOf n)
+
+/-- C04 at full strength in `n`: entry guard + loop equal `allMatches` for EVERY limit, 0 included. -/
+theorem C04_findAll_every_limit (find : Nat → Option α) (sp : α → Nat × Nat) (w : Nat → Nat) (len : Nat)
+    (ok : FindOK find sp len) (wk : WidthOK w len) (n : Int) :
+    findAllTop false find sp (nextOf w) len n = stdFindAll find sp w len n := by
+  unfold findAllTop
+  by_cases hn : n = 0
+  · rw [if_pos hn, hn, C04_std_limit_zero]
+  · rw [if_neg hn]; exact loopA_eq_std find sp w len ok wk n hn
+
+/- `a` on "a" -/
+def exFind0 : Nat → Option (Nat × Nat) | 0 => some (0, 1) | _ => none
+def exW0 : Nat → Nat | 0 => 1 | _ => 0
+
+/-- without the entry guard the loop alone is wrong at 0 (it would enumerate everything): the guard is needed. -/
+example : findAllA false exFind0 id (nextOf exW0) 1 (limOf 0) ≠ stdFindAll exFind0 id exW0 1 0 := by decide
+
 /-- C04, start-anchored shortcut: sound exactly when nothing can match from a later offset. -/
 theorem C04_anchored_shortcut (find : Nat → Option α) (sp : α → Nat × Nat) (w : Nat → Nat) (len : Nat)
     (ok : FindOK find sp len) (wk : WidthOK w len) (anch : ∀ p, 0 < p → find p = none) (n : Int) (hn : n ≠ 0) :
